@@ -86,7 +86,7 @@ func clBarrierLockset(c *Ctx) {
 				return false
 			}
 			k, on := atomicOnField(call, fRun)
-			return on && k == "CAS" && isConstInt(0)(call.Call.Args[1]) && isConstInt(1)(call.Call.Args[2])
+			return on && k == "CAS" && isConstInt(0)(atomicArgs(call)[1]) && isConstInt(1)(atomicArgs(call)[2])
 		})
 		c.Check(held, fn, s, cnt.in(fn, "cleanup runs only under the isDestructorRunning try-lock"), "two cleanups can run concurrently: a session is destructed twice or out of order")
 		n++
@@ -123,7 +123,7 @@ func clFlushOrder(c *Ctx) {
 	if !c.Check(add != nil && swap != nil && rel != nil, fn, nil, "flush = install new session, tag old one, add the offset, release", "FlushSession no longer closes the current session by adding the flush offset and releasing it") {
 		return
 	}
-	n, isC := constInt(callOf(add).Args[1])
+	n, isC := constInt(atomicArgs(add)[1])
 	c.Check(isC && n == offset+1, fn, add, "flush adds exactly barrierFlushOffset+1 to the live count", "the closing offset does not match what Acquire/Release test for: closed sessions are never recognised, or terminate with accessors inside")
 	for _, e := range []struct {
 		fv   *types.Var
@@ -444,7 +444,7 @@ func clDestructorUnderTryLock(c *Ctx, cleanup *ssa.Function, fCallb *types.Var) 
 			if !on {
 				continue
 			}
-			args := callOf(in).Args
+			args := atomicArgs(in)
 			switch {
 			case k == "CAS" && isConstInt(0)(args[1]) && isConstInt(1)(args[2]):
 				acquires = append(acquires, in)
@@ -497,7 +497,7 @@ func clTryLockRecheck(c *Ctx) {
 		if !on {
 			continue
 		}
-		args := callOf(in).Args
+		args := atomicArgs(in)
 		switch {
 		case k == "CAS" && isConstInt(0)(args[1]) && isConstInt(1)(args[2]):
 			acquire = in
